@@ -27,7 +27,8 @@ assumptions = [
     "leaks are observed by wrapping malloc/free at link time and attributing library allocations to the identifier operated on; memory errors by ASan/UBSan",
     "mpt_identifier_compare with a zero name pointer is outside the property (the spec accepts any verdict there)",
 ]
-trusted = ["hand-written model MptModel/Impl/Ident.lean tied to mptcore/misc/identifier.c, node/node_new.c by harness/drv_ident.c",
+trusted = ["the spec column of the driver is Vals.step / setVal / cmpEq / nameOf of Spec/Ident.lean on Op.abs (Impl/IdentAbs.lean): the functions the refinement theorems are about",
+           "hand-written model MptModel/Impl/Ident.lean tied to mptcore/misc/identifier.c, node/node_new.c by harness/drv_ident.c",
            "mpt++/identifier.cpp is exercised as a second driver part against the same model (its methods are the C functions on this); "
            "item_group::append / item_array::append (mpt++/item_group.cpp, mptcore/array.h) are driven as 'new 24-byte identifier, then copy / set' "
            "of the same model (array.cpp and item_group.cpp are compiled into the driver translation unit with -fno-sanitize=vptr)"]
@@ -308,6 +309,20 @@ class _XX:
 extra_parts = [_XX]
 
 
+def _cmpnull():
+    """mpt_identifier_compare with a zero name pointer (outside the property: code against model only) and the
+    argument checks in front of it"""
+    out = []
+    for size in (16, 64):
+        for content in ("-", "616263", "null 3", "null 0", "null 40", "rep:61:40", "00", "null 1"):
+            lines = ["i reset", "i new %d" % size, "i cmp 0 null 0", "i cmp 0 null -1", "i cmp 0 - 0", "i cmp 0 - -1", "i set 0 " + content]
+            for n in (0, 1, 2, 3, 4, 39, 40, 41, -1):
+                lines.append("i cmp 0 null %d" % n)
+            lines += ["i cmp 0 - 0", "i cmp 0 616263 3", "i cmp 0 61626300 -1", "i cmp 0 6162636465 3", "i free 0"]
+            out.append(("cmpnull:%d:%s" % (size, content.replace(" ", "_")), lines))
+    return out
+
+
 def _random(tier, seed, scale):
     out = []
     n = (400 if tier == "quick" else 6000) * scale
@@ -398,6 +413,7 @@ def scripts(tier, seed, scale=1):
                           "i ineq 0 1", "i free 1", "i tinit 1", "i tfini 1", "i alloc 100001", "i node 100001", "q push 00", "i set 0 zero:3",
                           "i set 0 6162 1", "i free 0", "i set 0 61"]))
     out += _self_and_nodes(tier)
+    out += _cmpnull()
     out += _random(tier, seed, scale)
     return out
 
